@@ -1264,13 +1264,13 @@ def sec_xml_model(cx):
     chk, rng = cx.chk, cx.rng
     # ---------------- decoder: text -> tokens (encoding/xml) -> model  ==  yq -p=xml ----------------
     texts = []
-    elems = [gen_elem(rng) for _ in range(cx.n(200, 4000))]
+    elems = [gen_elem(rng) for _ in range(cx.n(120, 4000))]
     for e in elems:
         t = xml_write(interleave_elem(rng, e) if rng.random() < 0.5 else e, rng, "", rng.random() < 0.6)
         if rng.random() < 0.3:
             t = rng.choice(['<?xml version="1.0"?>\n', "<!DOCTYPE r>\n", "<!-- head -->", "<?pi x?>"]) + t
         texts.append(t)
-    for _ in range(cx.n(150, 3000)):       # token soup: unbalanced tags, mixed content, CDATA, comments, namespaces
+    for _ in range(cx.n(100, 3000)):       # token soup: unbalanced tags, mixed content, CDATA, comments, namespaces
         t = "".join(rng.choice(["<a>", "</a>", "<b>", "</b>", "<b/>", "<n:c k=\"v\" n:k=\"w\">", "</n:c>", "x", " y ", "<![CDATA[z]]>", "<!--c-->", "<?p i?>", "&amp;", "\n"])
                     for _ in range(rng.randrange(1, 9)))
         texts.append(t)
@@ -1304,7 +1304,7 @@ def sec_xml_model(cx):
     docs = []
     for e in elems[:: 2]:
         docs.append(({e[0]: xml_value_py(e, "+@", "+content")}, {}))
-    for _ in range(cx.n(200, 4000)):
+    for _ in range(cx.n(120, 4000)):
         d = {k: (gen_xdoc(rng, 1) if not k.startswith("+") else "DOCTYPE x" if k == "+directive" else rng.choice(["version=\"1.0\"", "a b"]))
              for k in rng.sample(["r", "a", "+p_xml", "+directive", "+p_top", "b"], rng.randrange(1, 4))}
         if xdoc_safe(d):
